@@ -9,7 +9,7 @@ VELS = [1, 127, 100, 64, 24, 40, 41, 39, 90]
 EDGE_PITCHES = [0, 127, 0, 127, 1, 126]
 KEYS = ["C", "G", "D", "A", "E", "B", "F_S", "C_S", "F", "B_B", "E_B", "A_B", "D_B", "G_B", "C_B"]
 SIGS = [(4, 4), (3, 4), (2, 4), (6, 8), (5, 8), (2, 2), (12, 8), (3, 16), (4, 4), (3, 4), (1, 4), (7, 8), (9, 16),
-        (4, 8), (4, 2), (2, 8), (8, 8), (8, 4), (3, 32), (5, 32), (2, 64), (6, 64), (7, 16), (5, 16)]   # same numerators with different denominators; denominators that do not divide 96
+        (4, 8), (4, 2), (2, 8), (8, 8), (8, 4), (3, 32), (5, 32), (2, 64), (6, 64), (7, 16), (5, 16), (3, 64), (5, 64), (1, 128)]   # same numerators with different denominators; denominators that do not divide 96
 STEP_POOLS = [[12], [6], [24, 12, 6, 16, 8, 4], [5, 12], [7], [12, 8], [3, 4], [24, 12, 6, 3, 16, 8, 4, 2], [1], [10, 4]]
 VALUE_POOLS = [[24, 12, 6, 16, 8, 4, 36, 18, 9], [12], [12, 24], [6, 12, 24, 48], [5, 7], [4, 8, 16], [1], [24, 12, 12], [], [96]]
 
